@@ -22,7 +22,7 @@ func init() {
 				"(boot) the constructor rebuilds the state (initState) at start-up unconditionally or under a witness that InitChain sets to a non-zero value for every legal genesis — it does not (known finding: initial_height 1); " +
 				"NOT decided: that reloaded values equal the in-memory ones (order-book lists, stake caches), iavl behaviour.",
 			Assumptions: stdAssumptions,
-			Rules:       []string{"C09.dirty", "C09.reach", "C09.keys", "C09.volatile", "C09.dirtycover", "C09.attach", "C09.evict", "C09.boot", "C09.lazy", "C09.persist"},
+			Rules:       []string{"C09.dirty", "C09.reach", "C09.keys", "C09.volatile", "C09.dirtycover", "C09.attach", "C09.evict", "C09.boot", "C09.lazy", "C09.persist", "C09.precommit"},
 		},
 		Run: runC09,
 	})
@@ -156,6 +156,7 @@ func runC09(c *core.Ctx) {
 	defer checkDirtyCover(c, "C09.dirtycover")
 	defer checkSymbolInfoAttach(c, "C09.attach")
 	defer checkEvict(c, "C09.evict")
+	defer checkNoCacheDropInCommit(c, "C09.precommit")
 	defer checkBoot(c, "C09.boot")
 	defer checkLazyLoad(c, "C09.lazy")
 	defer checkPersistAll(c, "C09.persist")
